@@ -294,3 +294,9 @@ PROPS["C15"]["streams"] = PROPS["C15"]["streams"] + [("eds_reconcile", 1500, 300
 
 # C17's "reflected in the error the sync reports / in the conditions" is judged on whole syncs with faults
 PROPS["C17"]["streams"] = PROPS["C17"]["streams"] + [("ers_reconcile", 1500, 30000)]
+
+# stickiness of Canary-Failed against a concurrent writer is judged on whole syncs (ers_reconcile);
+# "fail leads to the rollback" (C19) needs the mark to survive, so C19 adopts the C06 clauses there
+PROPS["C06"]["streams"] = PROPS["C06"]["streams"] + [("ers_reconcile", 2000, 40000)]
+PROPS["C19"]["streams"] = PROPS["C19"]["streams"] + [("ers_reconcile", 1500, 30000)]
+PROPS["C19"]["adopt"] = list(PROPS["C19"].get("adopt", [])) + ["C06"]
